@@ -323,7 +323,10 @@ func (t *TableInstance) Grow(delta uint32, initialRef Reference) (currentLen uin
 	}
 
 	if newLen := int64(currentLen) + int64(delta); // adding as 64bit ints to avoid overflow.
-	newLen >= math.MaxUint32 || (t.Max != nil && newLen > int64(*t.Max)) {
+	newLen >= math.MaxUint32 || (t.Max != nil && newLen > int64(*t.Max)) ||
+		// Like a declared minimum, a table cannot grow beyond the implementation limit:
+		// table.grow is allowed to fail, and this bounds what a guest can make the host allocate.
+		newLen > int64(MaximumFunctionIndex) {
 		return 0xffffffff // = -1 in signed 32-bit integer.
 	}
 
